@@ -226,7 +226,7 @@ func workerMain(args []string) int {
 			}
 			shrunk[v.Class]++
 			runStarted.Store(0) // shrinking has its own budget
-			sr := core.Shrink(p.ID, eng.Name, eng.Run, src.Rec, v.Class, 3000, 90*time.Second)
+			sr := core.Shrink(p.ID, eng.Name, eng.Run, src.Rec, v.Class, 6000, 120*time.Second)
 			if sr.Outcome == nil {
 				sum.Trouble = append(sum.Trouble, fmt.Sprintf("run %d: violation %s did not reproduce from its own trace (nondeterminism in the harness)", i, v.Class))
 				continue
